@@ -223,7 +223,7 @@ fn main() {
     let seed = env_seed();
     let thorough = env_tier_thorough();
     let nfiles = if thorough { 96 } else { 24 };
-    let files = corpus(seed, 0xC06, nfiles, false);
+    let files = corpus(seed, 0xC06, nfiles, false, "f");
     let mut stat: BTreeMap<String, u64> = BTreeMap::new();
     let mut bump = |k: &str, n: u64| *stat.entry(k.to_string()).or_insert(0) += n;
     let mut viols = 0usize;
